@@ -54,6 +54,7 @@ import ast
 import hashlib
 import os
 import sys
+import warnings
 
 VERIF = os.path.dirname(os.path.dirname(os.path.dirname(os.path.abspath(__file__))))
 OUT = os.path.join(VERIF, "lean", "LdarModel", "Generated", "Effects.lean")
@@ -116,7 +117,9 @@ def load_modules(src):
             try:
                 with open(path, "rb") as fh:
                     text = fh.read()
-                tree = ast.parse(text, filename=path)
+                with warnings.catch_warnings():
+                    warnings.simplefilter("ignore", SyntaxWarning)
+                    tree = ast.parse(text, filename=path)
             except (OSError, SyntaxError, ValueError) as e:
                 raise ExtractError(f"cannot parse {path}: {e}")
             mods[name] = Mod(name, path, rel, tree, is_pkg)
@@ -412,7 +415,8 @@ class FuncScan(ast.NodeVisitor):
         parts = chain(node)
         if not parts:
             return None
-        if parts[0] in self.shadow and ".".join(parts) not in self.local and parts[0] not in self.local:
+        is_self = parts[0] in ("self", "cls") and self.cur_class is not None
+        if parts[0] in self.shadow and not is_self and ".".join(parts) not in self.local and parts[0] not in self.local:
             return None
         sh = resolve_chain(self.ex.mods, self.m, parts, self.local, self.cur_class)
         if sh is not None and immutable_literal(sh.value):
@@ -424,7 +428,8 @@ class FuncScan(ast.NodeVisitor):
         parts = chain(node)
         if not parts:
             return None
-        if parts[0] in self.shadow and parts[0] not in self.globals:
+        is_self = parts[0] in ("self", "cls") and self.cur_class is not None
+        if parts[0] in self.shadow and parts[0] not in self.globals and not is_self:
             return None
         return resolve_chain(self.ex.mods, self.m, parts, self.local, self.cur_class)
 
@@ -862,7 +867,7 @@ def main(argv):
     else:
         print(f"effects: {len(t['reachable_modules'])} reachable modules, {len(t['rngSites'])} rng sites, "
               f"{len(t['seedSites'])} seed calls, {len(t['seedPoints'])} seed points, "
-              f"{len(t['sharedMutations'])} shared mutations; table {'rewritten' if changed and write else 'unchanged'}")
+              f"{len(t['sharedMutations'])} shared mutations; table {'rewritten' if changed and write else ('differs (not written)' if changed else 'unchanged')}")
     return 0
 
 
